@@ -52,7 +52,7 @@ type Shape struct {
 	// to the constructor: option lists are caller-owned memory that separate
 	// instances legitimately share.
 	NewWriterShared func(w io.Writer, page int, codec int) (W, error)
-	NewReader func(r io.ReadSeeker) (R, error)
+	NewReader       func(r io.ReadSeeker) (R, error)
 	// Meta is free-form glue-provided data (e.g. base shape for C14).
 	Meta map[string]string
 
